@@ -106,6 +106,7 @@ PROPS = {
             fam("transparent", g(gen.fam_transparent), 60, 1500, view="none", kinds=["immut"], rule="programs with clones, views, drops and re-binding"),
             fam("alias", g(gen.fam_alias), 200, 6000, view="none", kinds=["immut"], rule="distinct histories around shared storage: reshaped views, clones, gradients fetched from cells, seeds passed as clones, followed by further passes and optimizer updates"),
             fam("alias-float", g(gen.fam_alias, mode="float"), 60, 1500, mode="float", view="none", kinds=["immut"], rule="as above with the non-ring operations"),
+            fam("optim-holds", g(gen.fam_optim_holds), 10, 300, view="none", kinds=["immut"], rule="every assignment of {nothing, a clone, a live result, a reshaped view} to the parameters of lists of 2-3 (random to 5): which parameters are still named by another handle when the step runs, gradients set directly or left by real passes whose results were dropped; a twin list without other handles stepped next to it, compared parameter by parameter, two steps"),
         ],
         "assumptions": [F64_NOTE, BYVALUE_NOTE, "Rust's guarantee that a shared Rc<Vec<_>> without interior mutability cannot be written in safe code"],
     },
@@ -136,6 +137,7 @@ PROPS = {
     "C12": {
         "families": [
             fam("transparent", g(gen.fam_transparent), 400, 8000, view="meta", rule="distinct (program, set of edit kinds) with at least one edit: operand -> clone, drop after last use, re-bind, pass from a clone"),
+            fam("optim-holds", g(gen.fam_optim_holds), 20, 600, view="meta", rule="every assignment of {nothing, a clone, a live result, a reshaped view} to the parameters of lists of 2-3 (random to 5): which parameters are still named by another handle when the step runs, gradients set directly or left by real passes whose results were dropped; a twin list without other handles stepped next to it, compared parameter by parameter, two steps"),
         ],
         "assumptions": [F64_NOTE, SEED_NOTE],
     },
@@ -143,6 +145,7 @@ PROPS = {
         "families": [
             fam("optim", g(gen.fam_optim, frompass=False), 150, 4000, view="update", rule="every frozen subset of 1-4 parameters, random lists of 1-6, repeated updates, gradients from real passes"),
             fam("optim-float", g(gen.fam_optim, mode="float", frompass=False), 50, 1000, mode="float", view="update", rule="arbitrary learning rates"),
+            fam("optim-holds", g(gen.fam_optim_holds), 20, 600, view="update", rule="every assignment of {nothing, a clone, a live result, a reshaped view} to the parameters of lists of 2-3 (random to 5): which parameters are still named by another handle when the step runs, gradients set directly or left by real passes whose results were dropped; a twin list without other handles stepped next to it, compared parameter by parameter, two steps"),
             fam("train", g(gen.fam_train), 60, 600, view="update", rule="the optimizer as the model drives it: parameters (values and gradient presence) after every `update`, whoever produced the gradients (Model::backward or the caller's own backward), updates before the first pass and repeated updates"),
         ],
         "assumptions": [F64_NOTE],
